@@ -7,6 +7,10 @@ From LokyV Require Model.Wake Proofs.WakeThm.
 From LokyV Require Model.FailLoop Proofs.FailLoopThm.
 From LokyV Require Model.FeederPipe Proofs.FeederPipeThm.
 From LokyV Require Model.ForcedPop Proofs.ForcedPopThm.
+From LokyV Require Lib.KillTreeLib Gen.KillTree Model.KillTree Proofs.KillTreeThm.
+From Coq Require Import Permutation.
+Module KT := LokyV.Model.KillTree.
+Module KG := LokyV.Gen.KillTree.
 Import ListNotations.
 
 (* whatever happened before (a graceful shutdown included), shutdown(kill_workers=True) sets both flags *)
@@ -132,3 +136,65 @@ Print Assumptions C06_forced_loop_survives_the_feeder.
 Example C06_h20_keyerror :
   ForcedPop.fphase (ForcedPop.run false [ForcedPop.MgrStep; ForcedPop.FeederPops; ForcedPop.MgrStep] (ForcedPop.fstart 1)) = ForcedPop.LoopCrashed.
 Proof. exact ForcedPopThm.h20_keyerror. Qed.
+
+(* ---- "every worker together with all of its descendant processes is killed", with and without psutil (Model/KillTree.v; the
+   statement lists of loky/backend/utils.py are regenerated from the source) ---- *)
+
+(* psutil-less path: for EVERY process tree, of any depth and shape, the kills are exactly the post-order of the processes that exist
+   when their parent's children are listed: each of them once, every descendant before its ancestor *)
+Theorem C06_posix_kill_reaches_the_whole_tree :
+  forall t, let k := KT.exec_posix KG.posix_recursive_kill_prog t in
+    k = KT.postorder (KT.prune t) /\ Permutation k (KT.pids (KT.prune t)) /\
+    (forall s d, In s (KT.subtrees (KT.prune t)) -> In d (KT.descendants s) -> KT.before k d (KT.root s)).
+Proof.
+  intros t k. unfold k. rewrite KillTreeThm.posix_is_postorder_of_what_it_sees. split; [reflexivity|]. split.
+  - apply KillTreeThm.postorder_perm.
+  - intros s d. apply KillTreeThm.postorder_children_first.
+Qed.
+Print Assumptions C06_posix_kill_reaches_the_whole_tree.
+
+(* psutil path: one snapshot (any tree), killed in reverse: each process of the snapshot once, every descendant before its ancestor,
+   the worker itself last, then joined *)
+Theorem C06_psutil_kill_reaches_the_whole_tree :
+  forall t, let o := KT.exec_psutil KG.psutil_kill_prog t in
+    Permutation (KT.ukills o) (KT.pids (KT.prune t)) /\ KT.ujoined o = true /\
+    (forall s d, In s (KT.subtrees (KT.prune t)) -> In d (KT.descendants s) -> KT.before (KT.ukills o) d (KT.root s)).
+Proof.
+  intros t o. split; [apply KillTreeThm.psutil_kills_perm|]. split; [reflexivity|]. intros s d. apply KillTreeThm.psutil_children_first.
+Qed.
+Print Assumptions C06_psutil_kill_reaches_the_whole_tree.
+
+(* hence, when nothing is forked while the sweep is under way, the whole tree -- every nesting depth -- is killed, by both *)
+Theorem C06_quiet_tree_is_killed_entirely :
+  forall t, KT.no_late t = true ->
+    Permutation (KT.exec_posix KG.posix_recursive_kill_prog t) (KT.pids t)
+    /\ Permutation (KT.ukills (KT.exec_psutil KG.psutil_kill_prog t)) (KT.pids t).
+Proof.
+  intros t N. pose proof (KillTreeThm.prune_no_late t N) as E. split.
+  - rewrite KillTreeThm.posix_is_postorder_of_what_it_sees, E. apply KillTreeThm.postorder_perm.
+  - rewrite <- E at 2. apply KillTreeThm.psutil_kills_perm.
+Qed.
+Print Assumptions C06_quiet_tree_is_killed_entirely.
+
+(* the psutil-less wrapper: when the platform kill fails (no pgrep, ...) only the worker itself is killed; it is joined either way *)
+Theorem C06_nopsutil_wrapper :
+  forall t fails, KT.exec_nopsutil KG.nopsutil_wrapper_prog KG.posix_recursive_kill_prog t fails
+    = KT.mku (if fails then [KT.root t] else KT.exec_posix KG.posix_recursive_kill_prog t) true.
+Proof. exact KillTreeThm.exec_nopsutil_eq. Qed.
+Print Assumptions C06_nopsutil_wrapper.
+
+(* the full statement is false when a descendant forks during the sweep: the new process and everything below it escape both paths
+   (inherent to killing by enumeration; the sweep kills children first, so their parents keep running -- and may fork -- meanwhile) *)
+Theorem C06_fork_during_the_sweep_escapes_refuted :
+  exists t, NoDup (KT.pids t)
+    /\ KT.survivors (KT.exec_posix KG.posix_recursive_kill_prog t) t <> []
+    /\ KT.survivors (KT.ukills (KT.exec_psutil KG.psutil_kill_prog t)) t <> [].
+Proof.
+  exists KillTreeThm.racing_tree. split; [apply KillTreeThm.late_fork_escapes|].
+  destruct KillTreeThm.late_fork_survivors as [A B]. rewrite A, B. split; discriminate.
+Qed.
+Print Assumptions C06_fork_during_the_sweep_escapes_refuted.
+
+Theorem C06_kill_tree_structure : KG.kill_workers_kills_whole_trees = true.
+Proof. reflexivity. Qed.
+Print Assumptions C06_kill_tree_structure.
